@@ -5,7 +5,7 @@
 
 package interp
 
-//@ props C19 C20
+//@ props C19 C20 C13
 
 // An execution environment made by NewExecEnv has its name in Args[0] and a
 // variable map.
@@ -90,9 +90,48 @@ package interp
 //@   loop "for mode&Assign != 0" invariant 0 <= i && i < len(word) && len(fields) >= 1
 //@   ensures err == nil ==> len(fields) >= 1
 
+// ---- parameter expansion (C13): the POSIX table as a decision table ----
+//
+// Outcomes are program points of the real code: PARAM (the value is
+// substituted), WORD (the word is expanded), ASSIGN (Set is called), MATCH
+// (a pattern is removed), RUNECOUNT (characters are counted).  set and null
+// are the function's own classification of the parameter, pinned down for
+// "@" and "*" by the first clauses; for the rest it is the contract of Get.
 //@ func (*ExecEnv).expandParam
 //@   requires len(fields) >= 1 && pe != nil
 //@   ensures result1 == nil ==> len(result0) >= 1
+//@   site PARAM = label Param
+//@   site WORD = call interp.(*ExecEnv).expand
+//@   site ASSIGN = call interp.(*ExecEnv).Set
+//@   site MATCH = call pattern.Match
+//@   site RUNECOUNT = call utf8.RuneCountInString
+//@   ensures[C13] at-set: pe.Name.Value == "@" ==> set && null == (len(env.Args) == 1 || (len(env.Args) == 2 && old(env.Args[1]) == ""))
+//@   ensures[C13] star-set: pe.Name.Value == "*" ==> set && (len(env.Args) == 1 ==> null) && (len(env.Args) == 2 ==> null == (old(env.Args[1]) == "")) && (len(env.Args) > 2 ==> !null)
+//@   ensures[C13] simple-value: pe.Op == "" && !(mode&Arith != 0 && !issp(pe.Name.Value) && !ispos(pe.Name.Value)) && set && !null ==> site(PARAM) && result1 == nil
+//@   ensures[C13] simple-unset-nounset: pe.Op == "" && !(mode&Arith != 0 && !issp(pe.Name.Value) && !ispos(pe.Name.Value)) && !set && env.Opts&NoUnset != 0 ==> result1 is ParamExpError && !site(PARAM)
+//@   ensures[C13] simple-none: pe.Op == "" && !(set && !null) ==> !site(PARAM) && !site(WORD) && !site(ASSIGN)
+//@   ensures[C13] simple-noeffects: pe.Op == "" ==> !site(WORD) && !site(ASSIGN) && !site(MATCH)
+//@   ensures[C13] length-counts-characters: pe.Op == "#" && pe.Word == nil && set && pe.Name.Value != "@" && pe.Name.Value != "*" ==> site(RUNECOUNT) && result1 == nil
+//@   ensures[C13] length-unset-nounset: pe.Op == "#" && pe.Word == nil && !set && env.Opts&NoUnset != 0 ==> result1 is ParamExpError
+//@   ensures[C13] length-unset: pe.Op == "#" && pe.Word == nil && !set && env.Opts&NoUnset == 0 ==> result1 == nil
+//@   ensures[C13] length-noeffects: pe.Op != "" && pe.Word == nil ==> !site(PARAM) && !site(WORD) && !site(ASSIGN) && !site(MATCH)
+//@   ensures[C13] default-value: pe.Word != nil && (pe.Op == ":-" || pe.Op == "-") && set && !null ==> site(PARAM) && !site(WORD) && !site(ASSIGN)
+//@   ensures[C13] default-word: pe.Word != nil && ((pe.Op == ":-" && !(set && !null)) || (pe.Op == "-" && !set)) ==> site(WORD) && !site(PARAM) && !site(ASSIGN)
+//@   ensures[C13] default-null: pe.Word != nil && pe.Op == "-" && set && null ==> !site(WORD) && !site(PARAM) && !site(ASSIGN) && result1 == nil
+//@   ensures[C13] assign-value: pe.Word != nil && (pe.Op == ":=" || pe.Op == "=") && set && !null ==> site(PARAM) && !site(WORD) && !site(ASSIGN)
+//@   ensures[C13] assign-word: pe.Word != nil && ((pe.Op == ":=" && !(set && !null)) || (pe.Op == "=" && !set)) && !issp(pe.Name.Value) && !ispos(pe.Name.Value) && result1 == nil ==> site(WORD) && site(ASSIGN) && !site(PARAM)
+//@   ensures[C13] assign-readonly: pe.Word != nil && ((pe.Op == ":=" && !(set && !null)) || (pe.Op == "=" && !set)) && (issp(pe.Name.Value) || ispos(pe.Name.Value)) ==> result1 is ParamExpError && !site(ASSIGN) && !site(WORD)
+//@   ensures[C13] assign-null: pe.Word != nil && pe.Op == "=" && set && null ==> !site(WORD) && !site(PARAM) && !site(ASSIGN) && result1 == nil
+//@   ensures[C13] error-value: pe.Word != nil && (pe.Op == ":?" || pe.Op == "?") && set && !null ==> site(PARAM) && !site(WORD) && !site(ASSIGN)
+//@   ensures[C13] error-raised: pe.Word != nil && ((pe.Op == ":?" && !(set && !null)) || (pe.Op == "?" && !set)) ==> result1 != nil && !site(PARAM) && !site(ASSIGN)
+//@   ensures[C13] error-null: pe.Word != nil && pe.Op == "?" && set && null ==> !site(WORD) && !site(PARAM) && result1 == nil
+//@   ensures[C13] alt-word: pe.Word != nil && ((pe.Op == ":+" && set && !null) || (pe.Op == "+" && set)) ==> site(WORD) && !site(PARAM) && !site(ASSIGN)
+//@   ensures[C13] alt-none: pe.Word != nil && ((pe.Op == ":+" && !(set && !null)) || (pe.Op == "+" && !set)) ==> !site(WORD) && !site(PARAM) && !site(ASSIGN) && result1 == nil
+//@   ensures[C13] trim-match: pe.Word != nil && (pe.Op == "%" || pe.Op == "%%" || pe.Op == "#" || pe.Op == "##") && set && !null && result1 == nil ==> site(WORD) && !site(PARAM) && !site(ASSIGN)
+//@   ensures[C13] trim-unset-nounset: pe.Word != nil && (pe.Op == "%" || pe.Op == "%%" || pe.Op == "#" || pe.Op == "##") && !set && env.Opts&NoUnset != 0 ==> result1 is ParamExpError
+//@   ensures[C13] trim-none: pe.Word != nil && (pe.Op == "%" || pe.Op == "%%" || pe.Op == "#" || pe.Op == "##") && !(set && !null) ==> !site(WORD) && !site(MATCH) && !site(PARAM) && !site(ASSIGN)
+//@   ensures[C13] no-assign-on-error: result1 is ParamExpError ==> !site(ASSIGN)
+//@   assert[C13] at call pattern.Match: trim-mode: (pe.Op == "%" ==> arg1 == pattern.Suffix|pattern.Smallest) && (pe.Op == "%%" ==> arg1 == pattern.Suffix|pattern.Largest) && (pe.Op == "#" ==> arg1 == pattern.Prefix|pattern.Smallest) && (pe.Op == "##" ==> arg1 == pattern.Prefix|pattern.Largest)
 
 // expandTilde reports how far it consumed: off literals of word beyond the
 // first one, and col bytes of the literal it stopped in.
